@@ -549,6 +549,23 @@ class World:
             self.res.log.log("operator_task", kk, cmd)
         elif "callbacks" in op:
             self._raw_post(op)
+        elif "unsolicited_task" in op:
+            # a task response on the wire that no library client ever receives (another connection of the same beacon /
+            # a capture without the matching request): the passive decoders must decode it like any other, whatever the
+            # command id is - the real client could not be given ids outside BeaconCommand (its dispatcher rejects them)
+            bid = self._bid_of(kk)
+            sess = self.server.sessions.get(bid)
+            if sess is None or st is None or not st["keys"]:
+                return
+            cmd, data = op["unsolicited_task"]
+            epoch = self.epoch0 + self.kernel.now // 1_000_000
+            self.server.resp_n += 1
+            rw = self.server.task_response(sess, {"cmd": cmd, "data": unhx(data)}, epoch, {})
+            self.tap.append(TapRecord(rw, "get_resp", kk, [("task", epoch, cmd, unhx(data))], False, None))
+            self.res.log.log("unsolicited_task", kk, cmd)
+            self.res.probes["unsolicited_task_response"] += 1
+            if cmd not in _cmd_names():
+                self.res.probes["task_with_unknown_command_id"] += 1
         elif op.get("restart"):
             self.res.faults["restart"] += 1
             a = st["actor"]
@@ -567,7 +584,8 @@ class World:
         """Raw beacon: a POST carrying SEVERAL framed callbacks (what real beacons do, the library client never does),
         built with the library's primitives for an existing session and put on the wire by the independent serialiser."""
         from dissect.cobaltstrike.c2 import ClientC2Data, encrypt_packet
-        from dissect.cobaltstrike.c_c2 import BeaconCallback, CallbackPacket
+        from dissect.cobaltstrike.c_c2 import CallbackPacket, c2struct
+        BeaconCallback = c2struct.BeaconCallback     # the struct's own enum type: represents ids outside the Python IntEnum too
         kk = op["client"]
         st = self.clients.get(kk)
         if st is None or not st["keys"] or getattr(st["obj"], "c2http", None) is None or st["actor"].done:
@@ -784,7 +802,42 @@ class World:
         out["aes_rand"] = C2Http(self.bconfig, aes_rand=aes_rand)
         out["aes_hmac"] = C2Http(self.bconfig, aes_key=aes_key, hmac_key=hmac_key)
         out["aes_noverify"] = C2Http(self.bconfig, aes_key=aes_key, verify_hmac=False)
+        # two more observers with full keys that see the same messages differently (routing is by verb + URI only, and a
+        # keyed decoder needs no earlier message): one whose capture has task responses arriving late (overlapping
+        # connections: GET, POST, POST response, then the GET's response), one whose capture starts in mid-session
+        out["aes_hmac~delayed"] = C2Http(self.bconfig, aes_key=aes_key, hmac_key=hmac_key)
+        out["aes_hmac~latestart"] = C2Http(self.bconfig, aes_key=aes_key, hmac_key=hmac_key)
         return out
+
+    def _tap_order(self, kk, vname):
+        idxs = list(range(len(self.tap)))
+        if vname.endswith("~delayed"):
+            out = []
+            held = []   # (release_after_n_more_records_of_this_client, idx)
+            for i in idxs:
+                rec = self.tap[i]
+                mine = rec.client == kk
+                if mine and rec.kind == "get_resp" and rec.truth and core.draw(self.run_seed, "tap", kk, i) % 2 == 0:
+                    held.append([1 + core.draw(self.run_seed, "tapn", kk, i) % 3, i])
+                    self.res.probes["tap_task_response_delayed"] += 1
+                    continue
+                out.append(i)
+                if mine:
+                    for h in held:
+                        h[0] -= 1
+                    for h in [h for h in held if h[0] <= 0]:
+                        out.append(h[1])
+                        held.remove(h)
+            out += [h[1] for h in held]
+            return out
+        if vname.endswith("~latestart"):
+            mine = [i for i in idxs if self.tap[i].client == kk and self.tap[i].kind in ("get_req", "post_req")]
+            if len(mine) < 2:
+                return idxs
+            start = mine[1 + core.draw(self.run_seed, "tap0", kk) % (len(mine) - 1)]
+            self.res.probes["tap_starts_mid_session"] += 1
+            return [i for i in idxs if i >= start]
+        return idxs
 
     def _check_passive_decode(self):
         from dissect.cobaltstrike.c2 import HttpRequest, HttpResponse, parse_raw_http
@@ -796,7 +849,10 @@ class World:
                 continue
             for vname, dec in decs.items():
                 seen_checkin = False
-                for idx, rec in enumerate(self.tap):
+                order = self._tap_order(kk, vname)
+                first = order[0] if order else 0
+                for idx in order:
+                    rec = self.tap[idx]
                     if rec.client not in (kk, None):
                         continue
                     if rec.kind in ("err_resp", "noise_resp"):
@@ -807,7 +863,7 @@ class World:
                         continue
                     except Exception:
                         continue
-                    if isinstance(http, HttpResponse) and rec.req_index is not None:
+                    if isinstance(http, HttpResponse) and rec.req_index is not None and rec.req_index >= first:
                         try:
                             rq = parse_raw_http(self.tap[rec.req_index].wire)
                             http = http._replace(request=rq)
